@@ -31,6 +31,20 @@ func c06Program(r *fw.Rand) (string, string) {
 		lit := "{" + strings.Join(kv, ", ") + "}"
 		return "dd = " + lit + "; vv = dd.values(); [dd.keys(), vv, toStr(dd), dd.items(), dd.keys().rand(), vv[0], `{dd}`]", "dict-order"
 	}
+	if r.P(1, 15) {
+		// face counts between 2^62 and 2^63 that are not powers of two: about every third draw falls
+		// into the zone the sampler has to reject and draw again, and the second draw has to come
+		// from the context's generator like the first
+		big := func() string {
+			return r.Pick([]string{"6148914691236517206", "9223372036854775807", "4611686018427387905", "6917529027641081856", "9223372036854775806", "5000000000000000000", "7777777777777777777"})
+		}
+		return r.Pick([]string{
+			"[d" + big() + ", d" + big() + ", 2d" + big() + "kh1, d" + big() + "]",
+			"func hg() { d" + big() + " }; [hg(), hg(), hg(), d" + big() + "]",
+			"&hc = d" + big() + "; [hc, hc, hc, `{d" + big() + "}`]",
+			"i = 0; xs = []; while i < 6 { i = i + 1; xs.push(d" + big() + ") }; xs",
+		}), "huge-sides"
+	}
 	switch r.Intn(20) {
 	case 0, 1, 2:
 		return d(), "dice"
@@ -320,7 +334,7 @@ func init() {
 			return map[string]int64{"programs": 5000, "replays": 15000, "resumptions": 3000, "family_shuffle": 200, "family_rand": 200, "family_randSize": 200}
 		},
 		MaxShards:   8,
-		Rule:        "case = dice-using program (14 shapes: every family, dice in functions / computed values / templates / loops / branches / containers, default-sides dice with DefaultDiceSideExpr, shuffle/rand/randSize, recursion) × seed. Quiet run with the roll tap (every die's generator must be the context's) and a snapshot of the package-level generator (must not move); then three replays with the same seed while perturbers run on other goroutines (unseeded VMs rolling every family and shuffling, differently seeded VMs, direct Roll(nil) and x/exp/rand global draws): Ret, detail text and final generator state must be identical. Resumption: GetCurSeed after P1 installed in a fresh context must reproduce P2 exactly. 4%: the same seeded program must print identically 48 times. distinct = hash(program, configuration)",
+		Rule:        "case = dice-using program (14 shapes: every family, dice in functions / computed values / templates / loops / branches / containers, default-sides dice with DefaultDiceSideExpr, shuffle/rand/randSize, recursion) × seed. Quiet run with the roll tap (every die's generator must be the context's) and a snapshot of the package-level generator (must not move); then three replays with the same seed while perturbers run on other goroutines (unseeded VMs rolling every family and shuffling, differently seeded VMs, direct Roll(nil) and x/exp/rand global draws): Ret, detail text and final generator state must be identical. Resumption: GetCurSeed after P1 installed in a fresh context must reproduce P2 exactly. 4%: the same seeded program must print identically 48 times. distinct = hash(program, configuration) Also 'huge-sides': seeded dice with face counts between 2^62 and 2^63 that are not powers of two (rejection zone ≈ 1/3) in arrays, functions, computed values and loops.",
 		Assumptions: []string{"randomness that bypasses Roll (array methods) is invisible to the tap and is caught by replay inequality"},
 	})
 }
